@@ -104,6 +104,20 @@ pub open spec fn declared_len(h: &RequestHead) -> Option<usize> {
 #[verifier::external_body] pub struct Bytes { _p: u8 }
 pub uninterp spec fn bytes_view(b: &Bytes) -> Seq<u8>;
 impl View for Bytes { type V = Seq<u8>; open spec fn view(&self) -> Seq<u8> { bytes_view(self) } }
+impl Bytes {
+    /// API neighbourhood (not called by the unchanged code): the slicing operations of `bytes::Bytes`, exactly
+    #[verifier::external_body] pub fn len(&self) -> (r: usize) ensures r == self@.len() { unimplemented!() }
+    #[verifier::external_body] pub fn is_empty(&self) -> (r: bool) ensures r == (self@.len() == 0) { unimplemented!() }
+    #[verifier::external_body] pub fn truncate(&mut self, n: usize)
+        ensures final(self)@ == (if n < old(self)@.len() { old(self)@.take(n as int) } else { old(self)@ }) { unimplemented!() }
+    #[verifier::external_body] pub fn split_to(&mut self, n: usize) -> (r: Bytes)
+        requires n <= old(self)@.len()
+        ensures r@ == old(self)@.take(n as int), final(self)@ == old(self)@.skip(n as int) { unimplemented!() }
+    #[verifier::external_body] pub fn split_off(&mut self, n: usize) -> (r: Bytes)
+        requires n <= old(self)@.len()
+        ensures r@ == old(self)@.skip(n as int), final(self)@ == old(self)@.take(n as int) { unimplemented!() }
+    #[verifier::external_body] pub fn clear(&mut self) ensures final(self)@.len() == 0 { unimplemented!() }
+}
 #[verifier::external_body] pub struct Collected { _p: u8 }
 pub uninterp spec fn collected_view(c: &Collected) -> Seq<u8>;
 impl Collected { #[verifier::external_body] pub fn to_bytes(self) -> (r: Bytes) ensures r@ == collected_view(&self) { unimplemented!() } }
